@@ -309,7 +309,7 @@ REGRESSION_TEXTS = [
 
 def check(rep):
     quick = rep.tier == "quick"
-    E = 2 if quick else 3
+    E = 3 if quick else 4  # 3: two exact candidates plus a variation candidate (what a filter over the wrong list needs)
     rep.bounds.append(f"guess_edition: <= {E} candidate editions (exact and/or variation), start/end years symbolic or None, clock symbolic; get_year: every 4-digit string, symbolic upper bound; disambiguate_reporters: <= {3 if quick else 4} citations")
     rep.outside.append("more candidate editions; year strings that are not 4 digits (the year patterns only capture \\d{4}, see C02 harness); inherited years of parallel citations")
     rep.stubs += ["datetime.now().year: symbolic >= 2024", "helpers._highest_valid_year: symbolic >= 2025 (module constant computed at import)"]
